@@ -16,7 +16,7 @@ DETERMINISTIC = ["UPGrad", "DualProj", "MGDA", "CAGrad", "IMTLG", "AlignedMTL", 
 RANDOMISED = ["PCGrad", "Random", "GradDrop"]
 ALL = DETERMINISTIC + RANDOMISED
 TAU = {"float64": 1e-9, "float32": 1e-4}
-TAU_CAGRAD = {"float64": 1e-5, "float32": 5e-3}  # conic solver (CLARABEL, default tolerances): observed up to 1.3e-6 on duplicated rows
+TAU_CAGRAD = {"float64": 1e-4, "float32": 5e-3}  # conic solver (CLARABEL default tolerances ~1e-8 on the objective => ~1e-4 on a degenerate minimiser): observed up to 1.5e-5 on duplicated rows
 COND_MAX = {"float64": 1e6, "float32": 1e3}
 
 
@@ -92,23 +92,24 @@ def guard(desc, J: np.ndarray, dname: str, orders=None):
         # g_w_norm threshold of the implementation (on the normalised Gramian)
         return None
     if name == "IMTLG":
-        r, ok = M.rank_gap(G, hi=1.0 / COND_MAX[dname], lo=1e-13)
-        if not ok:
+        # pinv(J J^T) cuts singular values at max(m, n) eps sigma_1 (1e-15 in float64): a Gramian that is singular or nearly so
+        # (dependent or nearly dependent rows, m > n) has computed singular values within a small factor of that cut-off, so the
+        # numerical rank is ambiguous.  Judged: every singular value >= sigma_1 / COND_MAX (or the zero matrix, handled above).
+        svG = M.singular_values(G)
+        if svG[-1] < svG[0] / COND_MAX[dname]:
             return "imtlg_rank_ambiguous"
-        if r == 0:
-            return None
         d = np.linalg.norm(J, axis=1)
         v = np.linalg.pinv(G, rcond=1e-10) @ d
         if abs(v.sum()) < 1e-3 * np.abs(v).sum():
             return "imtlg_weight_sum_near_zero"
         return None
     if name == "ConFIG":
-        U = M.unit_rows(J)
-        r, ok = M.rank_gap(U, hi=1.0 / COND_MAX[dname], lo=1e-13)
-        if not ok:
-            return "config_rank_ambiguous"
         if (np.linalg.norm(J, axis=1) == 0).any():
             return "config_zero_row"
+        U = M.unit_rows(J)
+        svU = M.singular_values(U)  # min(m, n) singular values of the unit rows: all must be clear of pinv's cut-off
+        if svU[-1] < svU[0] / COND_MAX[dname]:
+            return "config_rank_ambiguous"
         w = np.ones(m) if desc.get("pref") is None else np.array(desc["pref"])
         best = np.linalg.pinv(U, rcond=1e-10) @ w
         if np.linalg.norm(best) < 1e-6 * np.linalg.norm(w):
